@@ -3,7 +3,7 @@ import ast
 import re
 
 from ..model import AnalysisError, Model, walk_no_nested, norm_stmt
-from .. import flow, protocol, dispatch, replay, siblings, defaults
+from .. import flow, protocol, dispatch, replay, siblings, defaults, sem
 
 EXPLANATION = (
     'Decided: (R1) for every PER/UPER/OER type class and every assignment of its configuration conditions, each token path the encoder can '
@@ -271,6 +271,63 @@ def check(ctx):
                               'interprets `number_of_bits > 0` as "this extension addition is present" (a present addition is dropped)' % Model.qual(obs[0][0]),
                               stmt='flush after append')
 
+    # ---- R9: an Encoder that spills its accumulator into chunks has its write position in two counters; octet-alignment arithmetic
+    #      (mod 8, & 7, // 8) on one of them alone is wrong as soon as a spilled chunk is not a whole number of octets
+    ctx.rule('C01.R9', 'Encoder alignment arithmetic uses the whole write position (spilled chunks + accumulator)')
+    for rel in (PER, OER):
+        enc_cls = model.cls(rel, 'Encoder')
+        init = enc_cls.find_method('__init__')
+        counters = set()
+        if init:
+            for n in walk_no_nested(init[1]):
+                if isinstance(n, ast.Assign) and isinstance(n.value, ast.Constant) and n.value.value == 0:
+                    for t in n.targets:
+                        if isinstance(t, ast.Attribute) and isinstance(t.value, ast.Name) and t.value.id == 'self' and 'bits' in t.attr:
+                            counters.add(t.attr)
+        # a spill: a method that adds one counter to another and resets the first
+        spills = False
+        for g in enc_cls.methods.values():
+            for n in walk_no_nested(g):
+                if isinstance(n, ast.AugAssign) and isinstance(n.op, ast.Add) and isinstance(n.target, ast.Attribute) and n.target.attr in counters \
+                        and isinstance(n.value, ast.Attribute) and n.value.attr in counters and n.value.attr != n.target.attr:
+                    spills = True
+        if len(counters) < 2 or not spills:
+            ctx.instance('C01.R9', '%s.Encoder keeps its position in one counter' % model.mod(rel).short, 'n/a', nontrivial=False, node=enc_cls.node, file=rel)
+            continue
+        n9 = 0
+        for name, g in sorted(enc_cls.methods.items()):
+            v = sem.View(g)
+            for n in walk_no_nested(g):
+                if not (isinstance(n, ast.BinOp) and isinstance(n.op, (ast.BitAnd, ast.Mod, ast.FloorDiv))):
+                    continue
+                consts = [x.value for x in (n.left, n.right) if isinstance(x, ast.Constant)]
+                if not any(c in (7, 8) for c in consts):
+                    continue
+                e = v.expr(n)
+                # a call of a method of the class is read as what it returns
+                mentioned = set()
+                for x in ast.walk(e):
+                    if isinstance(x, ast.Attribute) and isinstance(x.value, ast.Name) and x.value.id == 'self' and x.attr in counters:
+                        mentioned.add(x.attr)
+                    if isinstance(x, ast.Call) and isinstance(x.func, ast.Attribute) and isinstance(x.func.value, ast.Name) and x.func.value.id == 'self':
+                        r = enc_cls.find_method(x.func.attr)
+                        if r:
+                            for y in ast.walk(r[1]):
+                                if isinstance(y, ast.Attribute) and isinstance(y.value, ast.Name) and y.value.id == 'self' and y.attr in counters:
+                                    mentioned.add(y.attr)
+                if not mentioned:
+                    continue
+                n9 += 1
+                ok = mentioned == counters
+                ctx.instance('C01.R9', '%s: %s' % (Model.qual(g), ast.unparse(n)[:70]), 'whole position' if ok else 'VIOLATION', node=n, file=rel)
+                if not ok:
+                    ctx.violation('C01.R9', rel, n, Model.qual(g),
+                                  'octet alignment is computed from %s alone (%s), but the write position is the sum of %s: after the accumulator was spilled into a chunk '
+                                  'whose size is not a multiple of 8, padding and byte counts are off and every field after an align() lands at the wrong bit'
+                                  % (', '.join('self.' + m for m in sorted(mentioned)), ast.unparse(n), ' + '.join('self.' + c for c in sorted(counters))), stmt=norm_stmt(Model.enclosing_stmt(n)))
+        if n9 == 0:
+            ctx.instance('C01.R9', '%s.Encoder alignment arithmetic' % model.mod(rel).short, 'undecided', 'no mod-8 arithmetic on the position counters found', nontrivial=False, node=enc_cls.node, file=rel)
+
     # ---- R8
     for rel in (PER, OER):
         for f, call, ok, why in siblings.reset_discipline(model, rel):
@@ -370,3 +427,10 @@ REFACTORS = [
 
         return data"""),
 ]
+
+MUTANTS.append(dict(name='Encoder.align_always pads from the accumulator count alone', file=PER,
+                    old="""        width = 8 * self.number_of_bytes()
+        width -= self.chunks_number_of_bits
+        width -= self.number_of_bits
+""", new="""        width = (-self.number_of_bits & 0x7)
+""", expect='C01.R9'))
